@@ -107,6 +107,7 @@ def predicate_rule(prog, rep, rule, method, idx, want_fields, n_eq, extra=None):
 
 
 def check(env, rep, tier):
+    include(rep, env, tier, "c15", ("C15.2", "C15.4"), "C14.6", "'for every history of ... notification rounds and acknowledgements': which observers a later round drops depends on the pending id and the counter every round and acknowledgement leave behind")
     configs = ["default"] if tier == "quick" else ["default", "nodefault"]
     rep.configs = configs
     for cfg in configs:
